@@ -11,6 +11,7 @@ import (
 	"math"
 	"os"
 	"sort"
+	"strconv"
 	"strings"
 
 	"golang.org/x/tools/go/packages"
@@ -295,6 +296,15 @@ func blockPos(b *ssa.BasicBlock) token.Pos {
 // Top-level: verify one function against its contract
 
 func (x *Exec) lookupFunc(key string) *ssa.Function {
+	// anonymous function: parent$N
+	if i := strings.LastIndex(key, "$"); i > 0 {
+		if n, err := strconv.Atoi(key[i+1:]); err == nil {
+			if parent := x.lookupFunc(key[:i]); parent != nil && n >= 1 && n <= len(parent.AnonFuncs) {
+				return parent.AnonFuncs[n-1]
+			}
+			return nil
+		}
+	}
 	// package-level function or method by key
 	if fn := x.pkg.Func(key); fn != nil {
 		return fn
@@ -977,6 +987,18 @@ func (x *Exec) store(st *State, fr *Frame, addr Val, v Val, t types.Type, at ssa
 			return
 		}
 		st.storeAt("glob."+a.G.Name(), Term{S: "ref_nil", Sort: sRef}, gt, v, nil)
+		if x.curContract != nil && len(st.frames) == 1 {
+			for _, cl := range x.curContract.StoreAnns[a.G.Name()] {
+				if x.assumedOnly(cl) {
+					continue
+				}
+				env := &specEnv{x: x, st: st, vars: map[string]Val{}, frame: fr, old: st.entry, where: "after store to " + a.G.Name()}
+				for pi, pe := range splitConj(cl.Expr) {
+					t := x.evalBool(env, pe, cl)
+					x.oblige(st, fmt.Sprintf("%s/after-store:%s#%d.%d", x.curFunc, a.G.Name(), cl.Ord, pi), "store-assert", cl.Tags, t, token.NoPos, "right after "+a.G.Name()+" is assigned: "+exprStr(pe))
+				}
+			}
+		}
 	case Term:
 		if su, ok := under(t).(*types.Struct); ok && !isTypeParam(t) {
 			st.storeStruct(a, su, t, v)
@@ -1335,6 +1357,16 @@ func (x *Exec) mapKeys(st *State, mt *types.Map) (has, val, ln string, ks, vs st
 
 func (x *Exec) execMakeMap(st *State, fr *Frame, i *ssa.MakeMap) Val {
 	mt := under(i.Type()).(*types.Map)
+	if _, isStruct := mapStructFields(mt); isStruct {
+		ks, _ := x.sortOf(mt.Key())
+		base := "map:" + sanitize(ks) + ":" + structName(mt.Elem())
+		r := st.freshRef("map")
+		r.Typ = i.Type()
+		empty := Term{S: "((as const " + sArr(ks, sBool) + ") false)", Sort: sArr(ks, sBool)}
+		st.heapWrite(base+"#has", sArr(ks, sBool), r, empty)
+		st.heapWrite(base+"#len", sBV(64), r, bv64(0))
+		return r
+	}
 	has, _, ln, ks, _ := x.mapKeys(st, mt)
 	r := st.freshRef("map")
 	r.Typ = i.Type()
@@ -1344,8 +1376,59 @@ func (x *Exec) execMakeMap(st *State, fr *Frame, i *ssa.MakeMap) Val {
 	return r
 }
 
+// mapStructFields: maps whose values are (non-empty) structs keep one abstract value array per field.
+func mapStructFields(mt *types.Map) (*types.Struct, bool) {
+	su, ok := under(mt.Elem()).(*types.Struct)
+	return su, ok && su.NumFields() > 0
+}
+
+func (x *Exec) mapFieldKey(st *State, mt *types.Map, su *types.Struct, f int) (key, ks, vs string) {
+	ks, _ = x.sortOf(mt.Key())
+	vs, ok := x.sortOf(su.Field(f).Type())
+	if !ok {
+		panic(unsupported{"map value field type " + su.Field(f).Type().String()})
+	}
+	return "map:" + sanitize(ks) + ":" + structName(mt.Elem()) + "." + su.Field(f).Name() + "#val", ks, vs
+}
+
+// mapLookupStruct reads m[k] of a struct-valued map from snapshot h.
+func (x *Exec) mapLookupStruct(st *State, h *heapSnap, mt *types.Map, m, k Term) (*StructV, Term) {
+	su, _ := mapStructFields(mt)
+	ks, _ := x.sortOf(mt.Key())
+	base := "map:" + sanitize(ks) + ":" + structName(mt.Elem())
+	present := tSelect(st.heapRead(h, base+"#has", sArr(ks, sBool), m, nil), k)
+	sv := &StructV{T: su, Named: mt.Elem(), F: make([]Val, su.NumFields())}
+	for f := 0; f < su.NumFields(); f++ {
+		key, _, vs := x.mapFieldKey(st, mt, su, f)
+		got := tSelect(st.heapRead(h, key, sArr(ks, vs), m, nil), k)
+		z := st.zeroVal(su.Field(f).Type()).(Term)
+		r := tIte(present, got, z)
+		r.Typ = su.Field(f).Type()
+		sv.F[f] = r
+	}
+	return sv, present
+}
+
 func (x *Exec) execMapUpdate(st *State, fr *Frame, i *ssa.MapUpdate) {
 	mt := under(i.Map.Type()).(*types.Map)
+	if su, isStruct := mapStructFields(mt); isStruct {
+		ks, _ := x.sortOf(mt.Key())
+		base := "map:" + sanitize(ks) + ":" + structName(mt.Elem())
+		m := st.asTerm(x.val(st, fr, i.Map), nil)
+		k := st.asTerm(x.val(st, fr, i.Key), mt.Key())
+		hasArr := st.heapRead(nil, base+"#has", sArr(ks, sBool), m, nil)
+		present := tSelect(hasArr, k)
+		oldLen := st.heapRead(nil, base+"#len", sBV(64), m, nil)
+		st.heapWrite(base+"#len", sBV(64), m, st.def("maplen", tIte(present, oldLen, app(sBV(64), nil, "bvadd", oldLen, bv64(1)))))
+		st.heapWrite(base+"#has", sArr(ks, sBool), m, st.def("maphas", tStore(hasArr, k, tTrue)))
+		sv := x.val(st, fr, i.Value).(*StructV)
+		for f := 0; f < su.NumFields(); f++ {
+			key, _, vs := x.mapFieldKey(st, mt, su, f)
+			arr := st.heapRead(nil, key, sArr(ks, vs), m, nil)
+			st.heapWrite(key, sArr(ks, vs), m, st.def("mapval", tStore(arr, k, st.asTerm(sv.F[f], nil))))
+		}
+		return
+	}
 	has, val, ln, ks, vs := x.mapKeys(st, mt)
 	m := st.asTerm(x.val(st, fr, i.Map), nil)
 	k := st.asTerm(x.val(st, fr, i.Key), mt.Key())
@@ -1368,6 +1451,15 @@ func (x *Exec) execLookup(st *State, fr *Frame, i *ssa.Lookup) Val {
 	mt, ok := under(i.X.Type()).(*types.Map)
 	if !ok {
 		panic(unsupported{"string lookup"})
+	}
+	if _, isStruct := mapStructFields(mt); isStruct {
+		m := st.asTerm(x.val(st, fr, i.X), nil)
+		k := st.asTerm(x.val(st, fr, i.Index), mt.Key())
+		sv, present := x.mapLookupStruct(st, nil, mt, m, k)
+		if i.CommaOk {
+			return TupleV{sv, st.def("present", present)}
+		}
+		return sv
 	}
 	has, val, _, ks, vs := x.mapKeys(st, mt)
 	m := st.asTerm(x.val(st, fr, i.X), nil)
